@@ -236,6 +236,7 @@ func (tb simTBCtx) Context() context.Context { return tb.ctx }
 
 func (tb *simTB) rec(method, text string) {
 	tb.w.clk.Tick()
+	tb.w.memBytes += int64(2*len(text)) + 64
 	seq := tb.w.next()
 	tb.Calls = append(tb.Calls, TBCall{seq, method, text})
 	if method != "Helper" {
@@ -354,6 +355,8 @@ type World struct {
 
 	MaxInvocations int
 	Overrun        bool
+	inBubble       bool
+	memBytes       int64 // rough size of what this run has recorded (bounded: a run that outgrows it ends inconclusive)
 
 	Escaped    any    // panic value that escaped Check (other than the TB sentinel)
 	EscapedStr string
@@ -381,6 +384,7 @@ type ctxKey struct{}
 func (w *World) next() int { w.seq++; return w.seq }
 
 func (w *World) ev(k EvKind, inv int, a, b string, n int, ok bool) int {
+	w.memBytes += int64(3*(len(a)+len(b))) + 96 // the same text is kept in the event, the draw record and its normal form
 	s := w.next()
 	w.Events = append(w.Events, Event{Seq: s, Kind: k, Inv: inv, A: a, B: b, N: n, OK: ok})
 	return s
@@ -391,7 +395,12 @@ type overrunPanic struct{}
 func (w *World) beginInv(t *rapid.T, custom bool) *Invocation {
 	tick := w.clk.calls
 	w.clk.Tick()
-	if len(w.Invs) >= w.MaxInvocations {
+	if w.Overrun || len(w.Invs) >= w.MaxInvocations || w.memBytes > 384<<20 {
+		// rapid recovers every panic of the property, so unwinding alone does not end the Check: push the (fake) clock
+		// far past every deadline so that rapid stops generating / minimizing at its next deadline check
+		if !w.Overrun && w.inBubble {
+			time.Sleep(100000 * time.Hour)
+		}
 		w.Overrun = true
 		panic(overrunPanic{})
 	}
@@ -401,6 +410,7 @@ func (w *World) beginInv(t *rapid.T, custom bool) *Invocation {
 		inv.Parent = w.cur.Idx
 	}
 	inv.Info = rapid.VerifInfo(t)
+	w.memBytes += int64(8*len(inv.Info.Buf)) + 512
 	w.Invs = append(w.Invs, inv)
 	inv.SeqBegin = w.ev(EvInvBegin, inv.Idx, "", "", 0, custom)
 	w.stack = append(w.stack, inv)
@@ -442,6 +452,7 @@ func (w *World) endInv(t *rapid.T, inv *Invocation) {
 	}
 	if inv.Info.Persist {
 		inv.RecData, inv.RecGroups = rapid.VerifRecorded(t)
+		w.memBytes += int64(8*len(inv.RecData) + 64*len(inv.RecGroups))
 	}
 	inv.SeqEnd = w.ev(EvInvEnd, inv.Idx, "", "", 0, inv.Returned)
 	// pop (also pops anything left above it: an inner Custom invocation ends before the outer one by defer order)
